@@ -48,24 +48,28 @@ def rev_plugin():
 
 # ---- request alphabet: (symbol, target kind) -> bytes, expectation
 
-def mkreq(role, sym, i):
+CONN = {'none': b'', 'ka-lower': b'Connection: keep-alive\r\n', 'ka-title': b'Connection: Keep-Alive\r\n',
+        'ka-list': b'Connection: keep-alive, x-foo\r\nX-Foo: 1\r\n'}
+
+
+def mkreq(role, sym, i, conn='none'):
     """Returns (wire bytes, expected dict(origin, method, path, body))."""
     if role == 'forward':
         host = {'G': 'a', 'P': 'a', 'C': 'a', 'B': 'b', 'D': 'a'}[sym]
         port = b':8080' if sym == 'D' else b''
         path = b'/x%d' % i
         target = b'http://%s.test%s%s' % (host.encode(), port, path)
-        hosthdr = b'Host: %s.test%s\r\n' % (host.encode(), port)
+        hosthdr = b'Host: %s.test%s\r\n' % (host.encode(), port) + CONN[conn]
         exp_path = path
         exp_origin = 'a8' if sym == 'D' else host
     elif role == 'web':
         route = {'G': 'wa', 'P': 'wa', 'C': 'wa', 'B': 'wb', 'D': 'wb'}[sym]
         path = b'/%s/x%d' % (route.encode(), i)
-        target, hosthdr, exp_path, exp_origin = path, b'Host: front\r\n', path, route
+        target, hosthdr, exp_path, exp_origin = path, b'Host: front\r\n' + CONN[conn], path, route
     else:
         route = {'G': 'r1', 'P': 'r1', 'C': 'r1', 'B': 'r2', 'D': 'r3'}[sym]
         path = b'/%s/x%d' % (route.encode(), i)
-        target, hosthdr = path, b'Host: front\r\n'
+        target, hosthdr = path, b'Host: front\r\n' + CONN[conn]
         exp_path = {'r1': b'/p1', 'r2': b'/p2', 'r3': b'/p3'}[route]
         exp_origin = {'r1': 'u1', 'r2': 'u2', 'r3': 'u1b'}[route]
     if sym in ('G', 'B', 'D'):
@@ -126,11 +130,15 @@ def scenarios(tier):
         else:
             fa, fo = ['--threadless', '--enable-reverse-proxy'], {'plugins': [rev_plugin()]}
             origins = {ADDR['u1']: origin('u1'), ADDR['u2']: origin('u2'), ADDR['u1b']: origin('u1b')}
-        for seq in sequences(tier):
-            built = [mkreq(role, s, i) for i, s in enumerate(seq)]
+        for seq, conn in [(sq, 'none') for sq in sequences(tier)] + \
+                [(sq, cn) for cn in ('ka-lower', 'ka-title') + (('ka-list',) if tier == 'thorough' else ())
+                 for sq in sequences(tier) if len(sq) == 2 or (len(sq) == 3 and tier == 'thorough')]:
+            built = [mkreq(role, s, i, conn) for i, s in enumerate(seq)]
             reqs = [b[0] for b in built]
             exps = [b[1] for b in built]
             for cls, pieces, wait in packings(reqs, tier):
+                if conn != 'none' and cls not in ('per_request_wait', 'per_request_pipelined', 'all_in_one'):
+                    continue
                 script = []
                 for p in pieces:
                     script.append(('send', p))
@@ -139,12 +147,12 @@ def scenarios(tier):
                 script += [('wait_idle',), ('close',)]
                 origs = [e['origin'] for e in exps]
                 out.append(Scenario(
-                    '%s/%s/%s' % (role, ''.join(seq), cls), fa, flags_opts=fo, mode='local',
+                    '%s/%s%s/%s' % (role, ''.join(seq), '' if conn == 'none' else '+' + conn, cls), fa, flags_opts=fo, mode='local',
                     clients=[dict(script=script)], origins=origins, dns=DNS, kinds='AR', horizon=600,
                     features={'role': role, 'sequence': ''.join(seq), 'n_requests': len(seq),
                               'packing': 'cut' if cls.startswith('cut') else cls,
                               'origins_differ': len(set(origs)) > 1,
-                              'has_body': any(s in 'PC' for s in seq),
+                              'has_body': any(s in 'PC' for s in seq), 'connection_header': conn,
                               '_exps': exps}))
     return out
 
